@@ -142,7 +142,17 @@ def part_b(chk, n):
     """CLI round trips across invocations, from the root and from a nested directory"""
     rng = chk.rng
     keys = [k for k in KEYS if k and not k.startswith("-") and k not in ("backend", "verbose", "no_color")]
-    for h in range(n):
+    # scripted histories, the same in every run: a value replaced by one that is EQUAL as a Python object but a different
+    # setting (1 / true / yes, 0 / false / no, 10 / 1_0), also on keys that only have a built-in default, unset twice
+    fixed = [
+        [("s", "a.b", "1"), ("g", "a.b"), ("s", "a.b", "true"), ("g", "a.b"), ("s", "a.b", "1"), ("g", "a.b"), ("s", "a.b", "yes"), ("g", "a.b")],
+        [("s", "a.b", "0"), ("g", "a.b"), ("s", "a.b", "no"), ("g", "a.b"), ("s", "a.b", "0"), ("g", "a.b"), ("s", "a.b", "false"), ("g", "a.b")],
+        [("s", "ab", "10"), ("s", "ab", "1_0"), ("g", "ab"), ("s", "ab", " 10"), ("g", "ab"), ("s", "ab", "ten"), ("g", "ab")],
+        [("g", "clean_logs"), ("s", "clean_logs", "0"), ("g", "clean_logs"), ("s", "clean_logs", "no"), ("g", "clean_logs"), ("u", "clean_logs"), ("g", "clean_logs"), ("u", "clean_logs")],
+        [("g", "use_spec_hashes"), ("s", "use_spec_hashes", "0"), ("g", "use_spec_hashes"), ("s", "use_spec_hashes", "1"), ("g", "use_spec_hashes"), ("s", "use_spec_hashes", "true"), ("g", "use_spec_hashes")],
+        [("u", "verbose"), ("u", "verbose"), ("g", "verbose"), ("s", "a", "x"), ("u", "a.b"), ("g", "a")],
+    ]
+    for h in range(-len(fixed), n):
         root = common.scratch_dir("gwfverif-cfgcli-")
         try:
             proj = os.path.join(root, "proj")
@@ -155,12 +165,16 @@ def part_b(chk, n):
             # EQUAL as Python objects although they are different settings (1 / true, 0 / no / false, 10 / 1_0 / " 10")
             hkeys = [rng.choice(["clean_logs", "use_spec_hashes"])] + rng.sample(keys, 2) if h % 2 else rng.sample(keys, 3)
             family = rng.choice([["1", "true", "yes", "01", "+1", "1"], ["0", "no", "false", "00", "-0", "0"], ["10", "1_0", " 10", "10 ", "010"]])
-            for _ in range(rng.randint(4, 9)):
-                k = rng.choice(hkeys)
-                r = rng.random()
+            plan = fixed[h + len(fixed)] if h < 0 else [None] * rng.randint(4, 9)
+            for step in plan:
+                k = rng.choice(hkeys) if step is None else step[1]
+                r = rng.random() if step is None else {"s": 0.1, "u": 0.6, "g": 0.9}[step[0]]
                 cwd = rng.choice([proj, sub])
                 if r < 0.5:
-                    v = rng.choice(family) if h % 2 and rng.random() < 0.7 else rng.choice([x for x in VALUES if "\n" not in x and "\t" not in x])
+                    if step is not None:
+                        v = step[2]
+                    else:
+                        v = rng.choice(family) if h % 2 and rng.random() < 0.7 else rng.choice([x for x in VALUES if "\n" not in x and "\t" not in x])
                     code, out, err = cluster.run_gwf(["-b", "slurm", "config", "set", "--", k, v], cwd, cl)
                     ops.append(("s", k, v)); toks.append("s:%s:%s" % (hx(k), hx(v)))
                     got = "ok" if code == 0 else "EXIT%d %s" % (code, err[-200:])
